@@ -38,6 +38,7 @@ CLAUSES = {
     "B.interp.returns": "building the grid, integrate() (which hierarchises) and interpolate() return normally for a valid configuration",
     "B.interp.identity": "interpolate(grid points) after integrate(table function) returns the table: |u(x_i)-v_i| <= 1e-9 (1+max|v|) for all "
                          "grid points and all components",
+    "B.interp.grid": "interpolate_grid(per-dimension coordinate lists) returns normally and equals interpolate() at the product points (first dimension slowest), 1e-9 (1+max|v|)",
     "B.hier.collocation": "HierarchizationLSG(grid)(values, numPoints, grid) returns surpluses s with sum_j s_j prod_d phi_{j_d}(x_{i_d}) == v_i "
                           "(own tensor evaluation of the grid's basis objects), 1e-9",
     "B.hist.reuse": "history: the same grid object given a sequence of different trees / areas (several of equal size, below and above the "
@@ -273,6 +274,34 @@ def grid_case(ctx, case, seen_basis=None, hist=None):
                   "max |interpolate(x_i) - v_i| = %.3e over %d grid points (%s points per dimension)" % (err, len(pts), nump))
         ctx.check("B.hist.stable", ok and np.array_equal(np.asarray(res, dtype=float), res_again), site_of(case, "interp"), wc + "/second-call",
                   "interpolate() called twice on the same points differs by %.3e" % (float(np.max(np.abs(np.asarray(res, dtype=float) - res_again))) if ok else float("nan")))
+    # 1b. the tensor-grid form of the interpolation (interpolate_grid: per-dimension coordinate lists) must agree with interpolate() at the product points:
+    #     a grid coordinate at each end, one in the middle and one off-grid value per dimension (defect fixed by a7f0c8d: the method read a non-existent
+    #     attribute and applied each per-dimension factor once per output component)
+    if res is not None and res.shape == (len(pts), outlen):
+        from sparseSpACE.ComponentGridInfo import ComponentGridInfo
+        cds = [[float(x) for x in G.get_coordinates_dim(i)] for i in range(d)]
+        if all(len(c) >= 1 for c in cds):
+            X = []
+            for i in range(d):
+                c = cds[i]
+                pick = sorted(set([c[0], c[len(c) // 2], c[-1]]))
+                pick.append(0.5 * (c[0] + c[-1]) + 0.173 * (c[-1] - c[0]) / 2 if len(c) > 1 else c[0])
+                X.append(sorted(set(pick)))
+            prod = [tuple(t) for t in itertools.product(*X)]
+            gres = None
+            with ctx.guard("B.interp.grid", site_of(case, "interp"), wc + "-grid-raises"):
+                with quiet():
+                    if kind == "global":
+                        gres = G.interpolate_grid([list(x) for x in X], ComponentGridInfo([max(l) for l in case["levels"]], 1))
+                    else:
+                        gres = G.interpolate_grid([list(x) for x in X], lo, hi, list(case["levelvec"]))
+                    want = np.asarray(interpolate(prod), dtype=float)
+            if gres is not None:
+                gres = np.asarray(gres, dtype=float)
+                okg = gres.shape == want.shape
+                errg = float(np.max(np.abs(gres - want))) if okg else float("inf")
+                ctx.check("B.interp.grid", okg and errg <= 1e-9 * (1 + vmax), site_of(case, "interp"), wc + "-grid",
+                          "interpolate_grid vs interpolate at the %d product points: shape %s vs %s, max difference %.3e" % (len(prod), gres.shape, want.shape, errg))
     # 2. hierarchisation alone against an own tensor evaluation of the basis objects
     bases = [basis_list(G, kind, i) for i in range(d)]
     coords = [[float(x) for x in G.get_coordinates_dim(i)] for i in range(d)]
